@@ -324,6 +324,7 @@ func engIndex(e *Env) {
 	compositeSweep(e, ctx, x, r)
 	singleFieldSweep(e, ctx, x)
 	acpIndexWitness(e, ctx, r)
+	maintHistories(e, ctx, r)
 	writeQueryCases(e, qcases, nil)
 	sort.Strings(e.Res.Notes)
 }
